@@ -26,10 +26,12 @@ type spelling struct {
 	typeList bool   // "type": ["t"]
 	boolAny  bool   // true instead of {}
 	legacyDp bool   // dependencies instead of dependentSchemas
+	mixedPtr bool   // each $ref occurrence picks its own pointer prefix
+	occ      *int   // occurrence counter for mixedPtr
 }
 
 func (s spelling) String() string {
-	return fmt.Sprintf("%s id=%v defs=%s ptr=%s typeList=%v true=%v deps=%v", s.format, s.legacyID, s.defs, s.ptr, s.typeList, s.boolAny, s.legacyDp)
+	return fmt.Sprintf("%s id=%v defs=%s ptr=%s typeList=%v true=%v deps=%v mixed=%v", s.format, s.legacyID, s.defs, s.ptr, s.typeList, s.boolAny, s.legacyDp, s.mixedPtr)
 }
 
 // respell rewrites the canonical JSON rendering of a schema.
@@ -62,7 +64,13 @@ func respell(v any, sp spelling, top bool) any {
 				if str, ok := val.(string); ok {
 					for _, pre := range []string{"#/$defs/", "#/definitions/"} {
 						if i := strings.Index(str, pre); i >= 0 {
-							str = str[:i] + sp.ptr + str[i+len(pre):]
+							ptr := sp.ptr
+							if sp.mixedPtr {
+								// every occurrence picks its own prefix (a document edited by several hands)
+								*sp.occ++
+								ptr = []string{"#/$defs/", "#/definitions/", sp.ptr}[*sp.occ%3]
+							}
+							str = str[:i] + ptr + str[i+len(pre):]
 							break
 						}
 					}
@@ -160,6 +168,17 @@ func c13(ctx *Ctx) (*Outcome, error) {
 			ctl := &sg.Schema{Types: []string{"string"}, Desc: "ctl \u0001\u0008\u000b\u001f\u007f \U000e0001 \u2028 end \"quoted\" \\ back\ttab", Pattern: "^[^\u0001-\u0008\u007f]*$", Default: "\u001f\u007f\U000e0001", HasDefault: true}
 			root.Props = append(root.Props, sg.Prop{Name: "ctl", S: ctl}, sg.Prop{Name: "ctlEnum", S: &sg.Schema{Types: []string{"string"}, HasEnum: true, Enum: []any{"a\u0001b", "c\u007fd", "e\U000e0001f"}}})
 		}
+		if i%2 == 1 && len(root.Types) == 1 && root.Types[0] == "object" {
+			// two definitions that want one Go name and have equal content incl. a reference: they are one type in
+			// every spelling (the equality that folds them must not look at how a reference is written)
+			leaf := &sg.Schema{Types: []string{"object"}, Props: []sg.Prop{{Name: "iso", S: &sg.Schema{Types: []string{"string"}, MinLen: 2}}}}
+			mk := func() *sg.Schema {
+				return &sg.Schema{Types: []string{"object"}, Props: []sg.Prop{{Name: "street", S: &sg.Schema{Types: []string{"string"}}}, {Name: "country", S: &sg.Schema{Ref: "#/$defs/DupLeaf", Target: leaf}}}, Required: []string{"street"}}
+			}
+			d1, d2 := mk(), mk()
+			root.Defs = append(root.Defs, sg.Prop{Name: "DupLeaf", S: leaf}, sg.Prop{Name: "DupAddr", S: d1}, sg.Prop{Name: "dupAddr", S: d2})
+			root.Props = append(root.Props, sg.Prop{Name: "office", S: &sg.Schema{Ref: "#/$defs/DupAddr", Target: d1}}, sg.Prop{Name: "home", S: &sg.Schema{Ref: "#/$defs/dupAddr", Target: d2}})
+		}
 		// an untyped subschema in every position the statement names, and a dependency keyword
 		root.Props = append(root.Props, sg.Prop{Name: "anyprop", S: &sg.Schema{}}, sg.Prop{Name: "anyitems", S: &sg.Schema{Types: []string{"array"}, Items: &sg.Schema{}}},
 			sg.Prop{Name: "anyadd", S: &sg.Schema{Types: []string{"object"}, Props: []sg.Prop{{Name: "k", S: &sg.Schema{Types: []string{"string"}}}}, AddProps: &sg.Schema{}}})
@@ -225,6 +244,10 @@ func c13(ctx *Ctx) (*Outcome, error) {
 			sp := spelling{format: formats[(x+i)%len(formats)], legacyID: r.Chance(0.5), typeList: r.Chance(0.5), boolAny: r.Chance(0.5), legacyDp: r.Chance(0.5)}
 			sp.defs = sg.PickOf(r, []string{"$defs", "definitions"})
 			sp.ptr = sg.PickOf(r, []string{"#/$defs/", "#/definitions/", "#/Definitions/", "#/$DEFS/"})
+			if x%3 == 2 {
+				sp.mixedPtr, sp.occ = true, new(int)
+				*sp.occ = x
+			}
 			j.sps = append(j.sps, sp)
 		}
 		jobs = append(jobs, j)
